@@ -163,7 +163,8 @@ def run_check(cid, tier, jobs=None):
     # ---- determinism: every reported violation must replay identically --------
     rc = 0
     lines = []
-    os.makedirs(os.path.join(VERIF, "replays"), exist_ok=True)
+    outdir = os.environ.get("VERIF_EVIDENCE_DIR") or VERIF   # scratch runs (mutants) must not touch /verif/evidence
+    os.makedirs(os.path.join(outdir, "replays"), exist_ok=True)
     for key, vs in unknown:
         v = min(vs, key=lambda v: len(json.dumps(jsonable(v["case"]))))
         case = jsonable(v["case"])
@@ -180,7 +181,7 @@ def run_check(cid, tier, jobs=None):
             print(f"HARNESS-NONDETERMINISM: violation {key} did not reproduce on replay: {v['message']}")
             return 2
         h = hashlib.sha1(json.dumps([key, case], sort_keys=True).encode()).hexdigest()[:10]
-        path = os.path.join(VERIF, "replays", f"{cid}-{h}.json")
+        path = os.path.join(outdir, "replays", f"{cid}-{h}.json")
         with open(path, "w") as f:
             json.dump({"property": cid, "key": key, "tier": tier, "case": case,
                        "message": v["message"], "count": len(vs)}, f, indent=1)
@@ -220,8 +221,8 @@ def run_check(cid, tier, jobs=None):
         "coverage": cov, "assumptions": list(chk.ASSUMPTIONS), "wall_s": round(wall, 2),
         "violations": len(unknown),
     }
-    os.makedirs(os.path.join(VERIF, "evidence"), exist_ok=True)
-    with open(os.path.join(VERIF, "evidence", f"{cid}.json"), "w") as f:
+    os.makedirs(os.path.join(outdir, "evidence"), exist_ok=True)
+    with open(os.path.join(outdir, "evidence", f"{cid}.json"), "w") as f:
         json.dump(ev, f, indent=1, sort_keys=True)
         f.write("\n")
     # vacuity self-check: many executions with < 2 distinct outcomes is a harness fault
